@@ -17,6 +17,12 @@ CHECKS["C15"] = dict(
   note="Trusted: symgo executor (slices as layered arrays, sync.Mutex model), z3. Bounds: <=3 packets (2 in quick for Bytes), body <=600 bytes, <=3 newly opened packets per write, histories <=3 (quick) / 4 (thorough) operations over packet sizes 9..24. Outside: AllPacketsConsumed/IsEOM with two or more consecutive empty-body packets (degenerate, unreachable through Channel).",
   ref="DESIGN.md §4 C15")
 
+CHECKS["C01"] = dict(
+  technique="symbolic execution of go/ssa with SMT (z3, linear integer arithmetic + bit-vectors): one message from an arbitrary channel state with symbolic packet size, lengths, contents and call split; captured transport writes parsed by an independent header decoder",
+  text="Bounded symbolic model checking of the real Channel.QueuePackage/SendRemainingPackets/SendPackage/sendPackets/sendPacket, PacketQueue.WriteBytes, NewPacket, Packet.Bytes/WriteTo, PacketHeader.Read. Packet size (256..65535), package lengths, contents, header type, channel id, packet counter and the split over the three send calls are symbolic; the solver decides header length, fullness, EOM placement, message type, channel id, packet numbering, byte-exact content (skolem index) and emptiness of the tx queue for all of them at once, including every exact multiple of the body size. A second message after a symbolic packet-size change shows nothing is carried over.",
+  note="Trusted: symgo executor, z3. Bounds: <=2 packages (quick) / 3 (thorough) per message, total length <= 3 packet bodies + 1 (2 in the two-message harness), 2 successive messages. Outside: longer messages, packet-size change in the middle of a message, transport write errors.",
+  ref="DESIGN.md §4 C01")
+
 NOT_APPLICABLE = {
 }
 
